@@ -44,7 +44,7 @@ BENIGN_EXTRA = """This round, prefer edits that LOOK like the kind of change tha
   - Python: replace a `for … else` by a flag variable, a `try/except KeyError` by an `in` test where equivalent, `dict.pop(k, None)` by a guarded `del`, a list comprehension by a loop.
 """
 
-SEED_EXTRA = """This time also consider mechanisms that keep every individual function looking exactly as careful as before: a constant, table entry, default or format string that is wrong; two fields of the same type exchanged at ONE of several sites; a comparison that is off by one at one end only; a unit or byte-order mix-up; a condition that is right for IPv4/N3/uplink and wrong for the other case; state that is updated on the request path but not on the retry/timeout/duplicate path; a value computed from the OLD record where the NEW one was meant (or the reverse) in a modification; a cleanup that runs for the first element of a list only; a cache or memo that is not invalidated; a goroutine that outlives what it serves; what the agent does on the very first or the 65 536th / 2^32-th use of a counter.
+SEED_EXTRA = """This time look where earlier rounds did not: behaviour that depends on a configuration switch that is off by default (enable_end_marker, enable_hbTimer, enable_ue_ip_alloc, enable_p4rt, gtpu path monitoring, slice metering, log level); what differs between the BESS and the UP4 datapath for the same request; the SECOND request of a kind on a session (second modification, second deletion, re-establishment with the same SEID after a deletion, a retransmitted request with the same sequence number); requests whose IEs come in an unusual but legal order or are repeated; the start-up, reconnect and SIGHUP/reconfigure paths; what happens at the boundary of a limit (MaxItems, pool sizes, 255/256 IDs, 16-bit and 32-bit counters wrapping, the last address of a pool, a /31 or /32 pool); error returns of library calls that are normally nil (marshal errors, dial errors, context cancellation, closed sockets); values that are copied (structs, slices, maps) where one copy is later modified; log/metrics code that runs on the hot path and can block or panic; defaults that differ between two places that should agree.
 """
 
 for p in props:
@@ -62,7 +62,7 @@ for p in props:
                 titles.append('  - ' + t[:220])
         head, rest = tpl.split('NOTE:', 1)
         _, tail = rest.split('YOUR TASK:', 1)
-        note = ('NOTE: %d seeded changes for this property already exist (four rounds); do NOT repeat these ideas, '
+        note = ('NOTE: %d seeded changes for this property already exist (six rounds); do NOT repeat these ideas, '
                 'find different mechanisms and different code sites:\n' % len(titles)) + '\n'.join(titles) + '\n' + \
             "Also note that the tree you got contains a number of recent bug fixes (commit messages starting with 'fix:' in `git log`); do not simply revert one of those fixes.\n" + \
             SEED_EXTRA + '\n\n'
